@@ -45,6 +45,13 @@ func NewNet(rng *vh.RNG, allow, require, maturity uint64) *Net {
 	// a non-trivial difficulty, so that the "sufficiently heavier" threshold (difficulty/5) is
 	// non-zero and total works of equal-length forks differ without being decisive
 	n.InitialTarget = []types.BlockID{{0x01}, {0x00, 0x40}, {0x00, 0x10}}[rng.Intn(3)] // difficulty 256 / 1024 / 4096
+	// put the difficulty adjustment in equilibrium at that target, so that it reacts to block
+	// timestamps from the first block on (with Zen's ASIC-hardfork constants it is pinned to the
+	// 0.4% clamp for hundreds of blocks and equal-length forks always have exactly equal work)
+	n.BlockInterval = 10 * time.Second
+	n.HardforkASIC.OakTime = n.BlockInterval
+	n.HardforkASIC.OakTarget = n.InitialTarget
+	n.HardforkOak.GenesisTimestamp = genesis.Timestamp
 	net := &Net{N: n, SK: keyFrom(rng), SK2: keyFrom(rng)}
 	net.UC = types.StandardUnlockConditions(net.SK.PublicKey())
 	net.Addr = net.UC.UnlockHash()
@@ -145,6 +152,9 @@ type Tree struct {
 	Blocks []*B
 	byHash map[types.BlockID]int
 	Base   time.Time // timestamps are Base + k seconds
+	// Disagreements between core's verdict on a block and what a Manager fed only that block's
+	// ancestry did with it (found while labelling; reported by the harnesses as oracle failures).
+	Disagreements []string
 }
 
 func NewTree(net *Net) *Tree {
@@ -230,8 +240,15 @@ func (t *Tree) add(parent int, blk types.Block, corrupt string, kinds []string) 
 				tw := t.Twin(parent)
 				ts, _ = tw.Store.AncestorTimestamp(blk.ParentID)
 				if !b.Future {
-					b.BodyOk = tw.CM.AddBlocks([]types.Block{blk}) == nil
-					if b.BodyOk {
+					// ground truth: core's ValidateBlock on the parent's full state with the store's
+					// supplement — asked directly, not through the Manager under test
+					direct := consensus.ValidateBlock(tw.CM.TipState(), blk, tw.Store.SupplementTipBlock(blk)) == nil
+					accepted := tw.CM.AddBlocks([]types.Block{blk}) == nil
+					b.BodyOk = direct
+					if direct != accepted {
+						t.Disagreements = append(t.Disagreements, fmt.Sprintf("block %d (corruption %q): consensus.ValidateBlock says valid=%v but a Manager that saw only its ancestry returned accepted=%v", b.ID, corrupt, direct, accepted))
+					}
+					if accepted {
 						b.Full = tw.CM.TipState()
 					}
 				}
